@@ -14,7 +14,7 @@ ID = "C12"
 LEVEL = "fault_enumeration"
 RULE = ("Complete single-fault sweep: for each of 12 scenarios (connect-with-auth, shell, stat, list, pull, push, abandoned stream, in several orders) x every index k of its transport-call "
         "sequence x every applicable fault kind in {read raises timeout, read raises ConnectionResetError, EOF from k on, short read then raise, short read then EOF, write raises BrokenPipeError, partial write then raise, "
-        "write raises timeout, connect refused} x recovery variant {close()+connect(), connect() only} x both APIs; thorough adds Hypothesis-sampled fault pairs (second fault inside the recovery). "
+        "write raises timeout, connect refused} x recovery variant {close()+connect(), connect() only} x both APIs; Hypothesis-sampled fault pairs (second fault inside the recovery); and the same recovery oracle over real loopback TCP where the peer aborts the connection (RST) after a drawn number of host packets. "
         "Oracle: the faulted call raises or returns the model's value; then, with Lock rebound to a lock that fails instead of blocking when already held, close() completes, connect() to a fresh healthy "
         "simulator returns True and the whole scenario replayed gives exactly the model's results; Watchdog = non-termination. Non-trivial: fault strictly inside an operation (not its first call). "
         "Distinct = (scenario, k, kind, variant, api).")
@@ -222,6 +222,9 @@ def pairs(draw):
 
 
 def replay(part, case):
+    if part == "tcp-reset":
+        from .. import sockcheck
+        return sockcheck.check_reset_case(case)[0]
     return check_case(case)[0]
 
 
@@ -240,5 +243,7 @@ def run(tier, seed):
     col = harness.corpus_part(ID, "single", check_case)
     col.merge(harness.enumeration_part("single", items, check_case))
     col.merge(harness.hypothesis_part("pairs", pairs(), check_case, 1500 if quick else 150000, seed, shrink=not quick))
+    from .. import sockcheck
+    col.merge(harness.hypothesis_part("tcp-reset", sockcheck.reset_cases(), sockcheck.check_reset_case, 48 if quick else 1600, seed))
     return harness.finish(ID, tier, seed, LEVEL, col, RULE, ASSUMPTIONS, t0, exhaustive=True,
                           extra={"single_fault_sweep_complete": True, "transport_calls_per_scenario": {n: len(profile(n, "sync")[1]) for n in SCENARIOS}})
